@@ -922,6 +922,20 @@ def result_and_then(ip, st, ci):
     raise Undecided("and_then of %s" % v[0])
 
 
+@prim("core::slice::<impl [T]>::swap_with_slice")
+def swap_with_slice(ip, st, ci):
+    a, b = tg_of(ci["args"][0]), tg_of(ci["args"][1])
+    la, lb = ip.tlen(st, a), ip.tlen(st, b)
+    ok = st.F.prove_eq(la - lb)
+    oblig(st, ci, "len:swap_with_slice", ok, "%r == %r" % (la, lb))
+    if not ok:
+        st.F.add_eq(la - lb)
+    va, vb = ip.load(st, a), ip.load(st, b)
+    ip.store(st, a if (a.path and a.path[-1][0] == "br") else ip.br(a, ZERO, la), vb)
+    ip.store(st, b if (b.path and b.path[-1][0] == "br") else ip.br(b, ZERO, lb), va)
+    return vunit()
+
+
 @prim("core::mem::swap")
 def mem_swap(ip, st, ci):
     a, b = tg_of(ci["args"][0]), tg_of(ci["args"][1])
@@ -1023,6 +1037,13 @@ def mem_take(ip, st, ci):
     reference, zero for integers and byte arrays."""
     a = tg_of(ci["args"][0])
     old = ip.load(st, a)
+    if old[0] == "ref" and not (old[1].path and old[1].path[-1][0] == "br"):
+        try:
+            tv = ip.load(st, old[1], log=False)
+            if tv[0] == "bytes":
+                old = ("ref", ip.br(old[1], ZERO, T.blen(tv[1])))
+        except Undecided:
+            pass
     if old[0] == "ref" and old[1].path and old[1].path[-1][0] == "br":
         br = old[1].path[-1]
         ip.store(st, a, ("ref", Target(old[1].cell, old[1].path[:-1] + (("br", br[1], ZERO),))))
@@ -1920,6 +1941,9 @@ def slice_windows(ip, st, ci):
     cnt_el = count_of(st, total, esz)
     ok = st.F.prove_ge(n[1] - 1)
     oblig(st, ci, "nonzero:windows", ok, "%r != 0" % (n[1],))
+    if st.F.prove_ge(cnt_el - n[1] + 1):
+        # len >= n - 1: the count len - n + 1 is itself non-negative (possibly zero), no case split
+        return ("iter", "windows", tg, esz, n[1], cnt_el - n[1] + 1)
     out = []
     for s2, some in fork_on(st, ("ge", cnt_el - n[1])):
         out.append((s2, ("iter", "windows", tg, esz, n[1], (cnt_el - n[1] + 1) if some else ZERO)))
